@@ -194,23 +194,26 @@ func checkC08(c *Ctx) {
 	mod["v2/model/m.go"] = "package model\n\ntype Item struct {\n\tK string\n\tP *int\n}\n"
 	mod["both/b.go"] = "package both\n\nimport (\n\tm1 \"scratch/v1/model\"\n\tm2 \"scratch/v2/model\"\n)\n\ntype Mig struct {\n\tOld m1.Item\n\tNew m2.Item\n}\n\nfunc e(a, b *Mig) bool { return deriveEqual(a, b) }\n\nfunc c(a *Mig) *Mig { return deriveClone(a) }\n\nfunc e1(a, b []m1.Item) bool { return deriveEqualOld(a, b) }\n\nfunc e2(a, b []m2.Item) bool { return deriveEqualNew(a, b) }\n"
 	mod["only2/o.go"] = "package only2\n\nimport \"scratch/v2/model\"\n\nfunc e(a, b []model.Item) bool { return deriveEqual(a, b) }\n\nfunc c(a map[string]model.Item) map[string]model.Item { return deriveClone(a) }\n\nfunc h(a *model.Item) uint64 { return deriveHash(a) }\n"
-	pkgs := []string{"a", "px", "d", "z", "both", "only2"}
+	// two packages with the same name, one's path a suffix of the other's
+	mod["codec/c.go"] = "package codec\n\ntype Frame struct {\n\tID int\n\tBody []byte\n}\n\nfunc e(a, b *Frame) bool { return deriveEqual(a, b) }\n"
+	mod["internal/codec/c.go"] = "package codec\n\ntype Header struct {\n\tK string\n\tV []string\n}\n\nfunc e(a, b *Header) bool { return deriveEqual(a, b) }\n\nfunc c(a *Header) *Header { return deriveClone(a) }\n"
+	pkgs := []string{"a", "px", "d", "z", "both", "only2", "codec", "internal/codec"}
 	type variant struct {
 		name string
 		runs [][]string // each inner slice = args of one invocation
 	}
 	var variants []variant
 	variants = append(variants, variant{"dotdotdot", [][]string{{"./..."}}})
-	variants = append(variants, variant{"separate-relative", [][]string{{"./a"}, {"./px"}, {"./d"}, {"./z"}, {"./both"}, {"./only2"}}})
-	variants = append(variants, variant{"separate-importpath", [][]string{{"scratch/only2"}, {"scratch/z"}, {"scratch/d"}, {"scratch/px"}, {"scratch/a"}, {"scratch/both"}}})
-	perm := []string{"./a", "./px", "./d", "./z", "./both", "./only2"}
+	variants = append(variants, variant{"separate-relative", [][]string{{"./a"}, {"./px"}, {"./d"}, {"./z"}, {"./both"}, {"./only2"}, {"./codec"}, {"./internal/codec"}}})
+	variants = append(variants, variant{"separate-importpath", [][]string{{"scratch/only2"}, {"scratch/z"}, {"scratch/d"}, {"scratch/px"}, {"scratch/a"}, {"scratch/both"}, {"scratch/internal/codec"}, {"scratch/codec"}}})
+	perm := []string{"./a", "./px", "./d", "./z", "./both", "./only2", "./codec", "./internal/codec"}
 	for i := 0; i < tierN(c, 4, 24); i++ {
 		p := append([]string{}, perm...)
 		r.Shuffle(len(p), func(i, j int) { p[i], p[j] = p[j], p[i] })
 		variants = append(variants, variant{"grouped-order-" + strings.Join(p, ","), [][]string{p}})
 	}
 	for i := 0; i < tierN(c, 3, 12); i++ {
-		p := []string{"scratch/a", "scratch/px", "scratch/d", "scratch/z", "scratch/both", "scratch/only2"}
+		p := []string{"scratch/a", "scratch/px", "scratch/d", "scratch/z", "scratch/both", "scratch/only2", "scratch/codec", "scratch/internal/codec"}
 		r.Shuffle(len(p), func(i, j int) { p[i], p[j] = p[j], p[i] })
 		for j := range p {
 			if r.Intn(2) == 0 {
@@ -223,10 +226,10 @@ func checkC08(c *Ctx) {
 		// the loader hands packages over in map order: the same grouped invocation is repeated
 		variants = append(variants, variant{fmt.Sprintf("dotdotdot-repeat-%d", i), [][]string{{"./..."}}})
 	}
-	variants = append(variants, variant{"subset-d-then-rest", [][]string{{"./d"}, {"./px", "./a"}, {"./z", "./both", "./only2"}}})
-	variants = append(variants, variant{"subset-importpath-pairs", [][]string{{"scratch/px", "scratch/d"}, {"scratch/a", "./z"}, {"scratch/both", "scratch/only2"}}})
-	variants = append(variants, variant{"samename-pair-both-first", [][]string{{"./a", "./px", "./d", "./z"}, {"./both", "./only2"}}})
-	variants = append(variants, variant{"samename-pair-only2-first", [][]string{{"./a", "./px", "./d", "./z"}, {"./only2", "./both"}}})
+	variants = append(variants, variant{"subset-d-then-rest", [][]string{{"./d"}, {"./px", "./a"}, {"./z", "./both", "./only2"}, {"./internal/codec", "./codec"}}})
+	variants = append(variants, variant{"subset-importpath-pairs", [][]string{{"scratch/px", "scratch/d"}, {"scratch/a", "./z"}, {"scratch/both", "scratch/only2"}, {"scratch/codec", "./internal/codec"}}})
+	variants = append(variants, variant{"samename-pair-both-first", [][]string{{"./a", "./px", "./d", "./z", "./codec", "./internal/codec"}, {"./both", "./only2"}}})
+	variants = append(variants, variant{"samename-pair-only2-first", [][]string{{"./a", "./px", "./d", "./z", "./internal/codec", "./codec"}, {"./only2", "./both"}}})
 	type vres struct {
 		sums map[string]string
 		outs map[string]string
@@ -259,6 +262,12 @@ func checkC08(c *Ctx) {
 		}
 		bad := false
 		for _, p := range pkgs {
+			if vr[i].outs[p] == "" {
+				// every package of the module has derive calls: a run that names it must leave its file
+				bad = true
+				c.Run.Violate(report.Violation{Key: "variant|package-not-generated", Summary: fmt.Sprintf("package %s: no derived.gen.go after variant %s although the package was named in it", p, v.name), Files: mapWithPrefix(mod, "tree/")})
+				continue
+			}
 			if vr[i].sums[p] != vr[0].sums[p] {
 				bad = true
 				files := mapWithPrefix(mod, "tree/")
